@@ -1,5 +1,5 @@
 """Pure-Python stand-in for bitarray.bitarray whose elements are int (0/1) or sxl Bit."""
-from sxl.bits import Bit, bxor, band, bor, bnot, bite, tobit, conj
+from sxl.bits import Bit, bxor, band, bor, bnot, bite, tobit, conj, next_serial
 
 __version__ = "3.11.0-sxl"
 
@@ -17,9 +17,10 @@ def _b(x):
 
 
 class bitarray:
-    __slots__ = ("_b", "_endian")
+    __slots__ = ("_b", "_endian", "_ser")
 
     def __init__(self, init=None, endian="big", buffer=None):
+        self._ser = next_serial()
         self._endian = endian
         if init is None:
             self._b = []
@@ -54,6 +55,7 @@ class bitarray:
 
     def _new(self, bits):
         r = bitarray.__new__(bitarray)
+        r._ser = next_serial()
         r._b = bits
         r._endian = self._endian
         return r
